@@ -67,7 +67,7 @@ func genC05(t *rapid.T) c5Case {
 	names := rapid.SampledFrom([][]string{{"g"}, {"g", "gen"}, {"deep", "a"}, {"x1"}, {"doc", "ab"}}).Draw(t, "gens")
 	for _, n := range names {
 		g := c5Gen{Name: n, Mode: rapid.SampledFrom([]string{"fixed", "new"}).Draw(t, "mode")}
-		for _, st := range []string{"counter", "helper", "refs", "docecho", "memo", "rotrefs", "docforeign"} {
+		for _, st := range []string{"counter", "helper", "refs", "docecho", "memo", "rotrefs", "docforeign", "sharedexpose"} {
 			if rapid.Bool().Draw(t, "state-"+st) {
 				g.State = append(g.State, st)
 			}
@@ -195,6 +195,9 @@ func (g c5Gen) script(c *c5Case) *script.Script {
 				text += fmt.Sprintf("var _$G_$T_rot%d @R%d\n\n", i, i)
 			}
 			pieces = append(pieces, script.Piece{Kind: "t", Text: text, Refs: g.RotRefs, Rotate: true})
+		case "sharedexpose":
+			// references through PkgExpose values that the generator keeps in a package-level variable and renders into every file
+			pieces = append(pieces, script.Piece{Kind: "sharedexpose", Text: "\nvar _$G_$T_shared0 @R0\n\nvar _$G_$T_shared1 @R1\n", Refs: []string{"strings.Builder", "context.Context"}})
 		case "fmtsensitive":
 			// text whose formatting depends on the go version and module path of the module it is generated into
 			pieces = append(pieces, script.Piece{Kind: "t", Text: "\nvar _$G_$T_mode = 0644\n\nvar _$G_$T_std @R0\n\nvar _$G_$T_local @R1\n", Refs: []string{"errors.New", g.FmtLocal}})
@@ -385,7 +388,7 @@ func c5NonTrivial(c c5Case) bool {
 	for _, f := range c5Features(c) {
 		fs[f] = true
 	}
-	return fs["multi-package-selection"] && (fs["state-counter"] || fs["state-helper"] || fs["state-refs"] || fs["state-memo"] || fs["state-rotrefs"] || fs["state-docforeign"] || len(c.Real) > 0)
+	return fs["multi-package-selection"] && (fs["state-counter"] || fs["state-helper"] || fs["state-refs"] || fs["state-memo"] || fs["state-rotrefs"] || fs["state-docforeign"] || fs["state-sharedexpose"] || len(c.Real) > 0)
 }
 
 func TestC05(t *testing.T) {
